@@ -517,6 +517,48 @@ func c14_1(c *core.Ctx, p *core.Prog) {
 				msgs = append(msgs, "the amount added to the in-use counter is not the amount that was tested against the limit")
 			}
 		}
+		// every path on which the in-use counter grows has passed the limit test: a second place that adds to the counter
+		// (a recycling fast path that hands out a pooled buffer) is a way around the limit
+		if changeObj != nil {
+			core.EachInstr(fn, func(i ssa.Instruction) {
+				s2, ok := storesTo(i, a.inuse)
+				if !ok || s2 == st {
+					return
+				}
+				b, ok := s2.Val.(*ssa.BinOp)
+				if !ok || b.Op != token.ADD {
+					return
+				}
+				conds2, g2, cx2, err2 := guardAtPos(p, s2.Pos())
+				if err2 != nil || cx2 {
+					msgs = append(msgs, fmt.Sprintf("the in-use counter also grows at %s, under a path condition that is not recognised", p.Pos(s2.Pos())))
+					return
+				}
+				g2.Roles = func(obj types.Object, e ast.Expr) (string, bool) {
+					switch {
+					case obj == types.Object(a.inuse):
+						return "inuse", true
+					case obj == types.Object(a.limit):
+						return "limit", true
+					case obj == changeObj:
+						return "change", true
+					}
+					return "", false
+				}
+				ok2, w2, n2, e2 := compareGuard(g2, conds2, []string{"inuse", "limit", "change"}, []int64{0, 1, 2, 3}, func(env map[string]int64) bool {
+					return env["inuse"]+env["change"] <= env["limit"]
+				}, "implies")
+				c.Stats["guard_valuations"] += n2
+				if e2 != nil || !ok2 {
+					msgs = append(msgs, fmt.Sprintf("the in-use counter also grows at %s on a path that has not passed the limit test (%s%s): memory handed out there is not refused when it exceeds the limit, and the reported in-use goes above it", p.Pos(s2.Pos()), w2, func() string {
+						if e2 != nil {
+							return "guard " + condString(conds2) + " says nothing about the limit"
+						}
+						return ""
+					}()))
+				}
+			})
+		}
 		c.Check(len(msgs) == 0, key, pos, core.FuncName(fn), "limit tested before the underlying call; in-use advanced by the tested change afterwards", strings.Join(msgs, "; "))
 		c.LastCovers(covers)
 	}
